@@ -504,3 +504,42 @@ func (g *G) Reannounce(calls []wl.Call) []wl.Call {
 	}
 	return out
 }
+
+
+// ReannounceWorkload is a chunked recording on three topics in which, chunk after chunk, a channel is announced again
+// right after its last message of the chunk while other channels go on: at the flush the writer must still know that the
+// chunk holds messages of the re-announced channel (message index, chunk index offsets).
+func (g *G) ReannounceWorkload(id string) wl.Workload {
+	c := wl.Cfg{Chunked: true, ChunkSize: int64(300 + g.R.Intn(500)), Compression: []string{"", "zstd", "lz4"}[g.R.Intn(3)], CRC: g.R.Intn(2) == 0}
+	calls := []wl.Call{{Op: "header", Profile: []byte("p")}, {Op: "schema", ID: 1, Name: []byte("s"), Enc: []byte("e"), Data: []byte("d")}}
+	chans := []wl.Call{
+		{Op: "channel", ID: 1, Schema: 1, Topic: []byte("/a"), Menc: []byte("m")},
+		{Op: "channel", ID: 2, Topic: []byte("/b"), Menc: []byte("m"), MD: []wl.KV{{K: []byte("k"), V: []byte("v")}}},
+		{Op: "channel", ID: 3, Schema: 1, Topic: []byte("/c"), Menc: []byte("m")}}
+	calls = append(calls, chans...)
+	seq := uint32(0)
+	t := uint64(10)
+	msg := func(ch int) wl.Call {
+		seq++
+		t += uint64(g.R.Intn(3))
+		d := make([]byte, 5+g.R.Intn(40))
+		g.R.Read(d)
+		return wl.Call{Op: "message", Ch: uint16(ch), Seq: seq, Log: t, Pub: t, Data: d}
+	}
+	for round := 0; round < 6+g.R.Intn(6); round++ {
+		x := 1 + g.R.Intn(3) // the channel that is re-announced in this stretch
+		for k := 0; k < 1+g.R.Intn(3); k++ {
+			calls = append(calls, msg(x))
+		}
+		calls = append(calls, chans[x-1])
+		for k := 0; k < 3+g.R.Intn(8); k++ { // the others go on until the chunk is flushed
+			o := 1 + g.R.Intn(3)
+			if o == x {
+				o = 1 + o%3
+			}
+			calls = append(calls, msg(o))
+		}
+	}
+	calls = append(calls, wl.Call{Op: "close"})
+	return wl.Workload{ID: id, Cfg: c, Calls: calls}
+}
